@@ -21,6 +21,23 @@ CLAIMS = {
     'C06': ('abstract interpretation over an ordered-map domain of the defer/drain functions (all four modes x entry '
             'present/absent), exit/enter composition, writer census of the pending map, aliasing of script lists',
             'string content of merged commands is C07; OctoPrint settings plumbing trusted'),
+    'C11': ('abstract interpretation of on_event for every event constant x active flag x clear setting against the '
+            'reference transition table; hooks with no active print return None without effects; writer census of the flag',
+            'OctoPrint event delivery and distinctness of event names trusted; stored settings valid'),
+    'C12': ('abstract interpretation of the delete/update API routes under (printing, shrinking disallowed): refusal is '
+            'effect free, a replacement is dominated by new.containsRegion(old)=True on the id-matched slot; writer census '
+            'of the region list and of region geometry fields',
+            'soundness of containsRegion itself is C17; regions reachable only through the state list'),
+    'C13': ('abstract interpretation of every API command and event: id-uniqueness guard, access check first, '
+            'mutation/notification pairing on every path, payload shape agreement between notification and GET',
+            'ids compared with ==; serialisation by OctoPrint trusted'),
+    'C14': ('abstract interpretation of handleAtCommand over symbolic configured actions (action mapping, exit sequence '
+            'sent in order, streaming/no-match effect free) and of the motion handlers with exclusion disabled '
+            '(no exclusion, tracking unchanged)',
+            'parameter pattern matching is a user regular expression (opaque); exit sequence itself is C03'),
+    'C15': ('abstract interpretation of handleScriptHook for matching / other / symbolic script names x active x '
+            'excluding: contributes the exit sequence as prefix exactly when required, closes the episode, otherwise no effect',
+            'ordering of script hook versus print-done event is OctoPrint behaviour'),
     'C09': ('every abstract path of every handler: result shape None / IGNORE / non-empty list of non-empty commands; '
             'every partial operation (division, sqrt, index, None arithmetic, raise) forks an exceptional path that '
             'must be infeasible under the sign/order facts of the path',
